@@ -38,7 +38,7 @@ theorem retransmission_not_forwarded (w : World) (o o' ci : Nat) (rq r : Rq) (c 
     simp only [hb, Option.isSome_some, if_true]
     have hg : getRq (newrqref w o') o' = some { r with refs := r.refs + 1 } := by
       unfold newrqref; rw [getRq_updRq_same, hr]; rfl
-    rw [sendreply_stored (newrqref w o') o' ci _ b hg hfr hb]
+    rw [sendreply_stored (newrqref w o') o' ci _ b c hg hfr hb (by exact hc)]
     constructor
     · rw [getCli_updCli_same _ ci _ c (by exact hc)]; rfl
     · rw [getRq_updCli, getRq_setRq_same, hg]; rfl
